@@ -54,7 +54,7 @@ MANIFEST = {
                  "tables, by source-to-Lean translation of the software manager's functions and by three differential rigs",
     "design_ref": "5/C13",
 }
-MODULES = ["PrimaiteModel.Props.C13", "PrimaiteModel.Lemmas.RegistriesRep", "PrimaiteModel.Props.C13Recv"]
+MODULES = ["PrimaiteModel.Props.C13", "PrimaiteModel.Lemmas.RegistriesRep", "PrimaiteModel.Props.C13Recv", "PrimaiteModel.Props.C13Bots"]
 EXE = "drv_c13"
 EXE_W = "drv_c13recv"   # two nodes with class data and a transport (receive path, DNS / NTP payload processing)
 
@@ -243,6 +243,11 @@ def replay(rec: dict) -> bool:
         from harness.lib.core import lake_build
         lake_build([EXE, EXE_W])
     guards = _guards()
+    if "bot_case" in r:
+        res = wrig.run_bot_case(r["bot_case"])
+        if r.get("oracle"):
+            return not res["oracle"]
+        return (run_driver(EXE_W, res["lines"]) if res["lines"] else []) == res["impl"]
     if "conn_case" in r:
         res = wrig.run_conn_case(r["conn_case"])
         if r.get("oracle"):
@@ -430,3 +435,29 @@ def run(ctx: Ctx):
                           {"conn_case": dict(c, ops=c["ops"][:j]), "from": "conn"})
     ctx.oblige("rig:R-conn (add_connection / terminate_connection) agrees on every trace", "correspondence", cagree == len(conn_cases),
                f"{len(conn_cases) - cagree} of {len(conn_cases)} traces disagree")
+
+    # -- R-bot: the attack loops of DoSBot / DataManipulationBot / RansomwareScript on real instances in every state
+    brng = ctx.rng.fork("bot")
+    bot_cases = [wrig.gen_bot_case(brng) for _ in range(ctx.scale(240, 4000))]
+    bres = [wrig.run_bot_case(c) for c in bot_cases]
+    lines_all = [l for r in bres for l in r["lines"]]
+    model_all = run_driver(EXE_W, lines_all, timeout=3000) if lines_all else []
+    pos, bagree, bcompared = 0, 0, 0
+    for c, r in zip(bot_cases, bres):
+        ctx.cov["traces_validated_against_impl"] += 1
+        ctx.case({"bot": c}, bool(r["acted"]))
+        ctx.count(f"bot:{c['kind']}:{r['entry']}:{'may-act' if r['can'] else 'may-not-act'}:{'acted' if r['acted'] else 'idle'}")
+        for (kind, detail) in r["oracle"]:
+            ctx.violation({"kind": kind, "bot": c["kind"], "entry": r["entry"]}, f"{kind}: {detail}", {"bot_case": c, "oracle": kind})
+        if r["lines"]:
+            bcompared += 1
+            model = model_all[pos:pos + len(r["lines"])]
+            pos += len(r["lines"])
+            if model == r["impl"]:
+                bagree += 1
+            else:
+                ctx.violation({"kind": "model-vs-impl", "where": "bot-loop", "bot": c["kind"]},
+                              f"attack loop of {c['kind']} differs from the proved model: line={r['lines']!r} impl={r['impl']!r} model={model!r}",
+                              {"bot_case": c, "from": "bot"})
+    ctx.oblige("rig:R-bot (attack loops of the red applications) agrees on every trace", "correspondence", bagree == bcompared,
+               f"{bcompared - bagree} of {bcompared} traces disagree")
